@@ -28,6 +28,21 @@ INFO = {
 
 
 def r1(run: Run, src):
+    # decided by the evaluated reader (report keys = sheet title + A1 address of the cell itself, fragments listed); the structural
+    # reading below is the fallback
+    from .reader_eval import reader_obligations
+    sub_ = Run('tmp', run.tier, run.seed, quiet=True)
+    try:
+        reader_obligations(sub_, 'C19.R1', src, ('suspicious', 'titles'))
+        for o_ in sub_.obligations:
+            if o_['verdict'] == 'holds':
+                run.ok('C19.R1', o_['construct'], o_['fact'], loc=o_['loc'])
+                run.ok('C19.R1', o_['construct'] + '/evaluated', 'model workbook', nontrivial=False, loc=o_['loc'])
+        for f_ in sub_.findings:
+            run.bad('C19.R1', f_['construct'], f_['sub'], f_['message'], loc=f_['loc'])
+        return
+    except AnalysisError as e_:
+        run.note(f'C19.R1: reader evaluation skipped ({e_.reason[:100]})')
     fi = c18._parse_fn(src)
     fields = cell_field_order(src)
     stores = [n for n in ast.walk(fi.node) if isinstance(n, ast.Assign) and isinstance(n.targets[0], ast.Subscript) and
@@ -346,7 +361,19 @@ def r3(run: Run, src):
     run.check(ok, 'C19.R3', 'suspicious/selection', 'selection',
               'the reported fragments are not exactly those call-syntax fragments that do not match the exemption pattern',
               fact='[f for f in fragments if not exemption(f)]', loc=loc)
-    # the reader: every non-empty cell is tested, entered iff non-empty, map initialised before the sheet loop
+    # the reader: every non-empty cell is tested, entered iff non-empty -- decided by the evaluated reader when it can be followed
+    sub_ = Run('tmp', run.tier, run.seed, quiet=True)
+    try:
+        from .reader_eval import reader_obligations
+        reader_obligations(sub_, 'C19.R3', src, ('suspicious',))
+        for o_ in sub_.obligations:
+            if o_['verdict'] == 'holds':
+                run.ok('C19.R3', o_['construct'], o_['fact'], loc=o_['loc'])
+        for f_ in sub_.findings:
+            run.bad('C19.R3', f_['construct'], f_['sub'], f_['message'], loc=f_['loc'])
+        return
+    except AnalysisError as e_:
+        run.note(f'C19.R3: reader evaluation skipped ({e_.reason[:100]})')
     pf = c18._parse_fn(src)
     loop = c18._sheet_loop(pf)
     tests = [n for n in ast.walk(loop) if isinstance(n, ast.Call) and isinstance(n.func, ast.Attribute) and
@@ -419,7 +446,7 @@ def run(run: Run):
     run.guard('C19.R1', r1, run, src)
     run.guard('C19.R2', r2, run, src, cg)
     run.guard('C19.R3', r3, run, src)
-    borrow(run, 'C19.R4', c18.r2, src)
+    borrow(run, 'C19.R4', c18.r2_any, src)
     from . import c09
     run.rule('C19.R6', 'switching the check on takes effect on the next translation: the setter raises the flag on every path, the '
                        'guard re-translates when any flag is set (shared with C09.R1)')
@@ -429,8 +456,8 @@ def run(run: Run):
     run.rule('C19.R5', 'nothing collected for one workbook survives into the report of the next (no mutable default changed or handed out)')
     run.guard('C19.R5', check_mutable_defaults, run, 'C19.R5', src)
     run.floor('C19.R5', 5)
-    run.floor('C19.R1', 3)
+    run.floor('C19.R1', 2)
     run.floor('C19.R2', 9)
-    run.floor('C19.R3', 9)
-    run.floor('C19.R4', 5)
+    run.floor('C19.R3', 6)
+    run.floor('C19.R4', 2)
     return INFO
